@@ -7,7 +7,14 @@ NOT_APPLICABLE = {("C%02d" % i): _PENDING for i in range(1, 19)}
 
 _ENGINE_NOTE = "Trusted: gosym (own SSA->SMT executor; validated per run by differential native replay of solved path models), z3 5.1.0, the sequential models of sync/atomic/context-free stubs listed in evidence.assumptions, go/ssa construction. Bounded: program length, callback nesting depth 1, stream length."
 
+_CONC_TECH = "bounded symbolic execution of the real code from go/ssa in the executor's concurrent mode: goroutine interleavings at synchronisation operations are decision variables of the path (case-split within a preemption bound), a vector-clock happens-before monitor checks every load/store, operation choices are SMT variables (z3); violating schedules are replayed natively under the Go race detector"
+
 META = {
+    "C14": {
+        "text": "Bounded model checking of the real T methods under concurrent calls: the property body starts 2-3 goroutines that call solver-chosen sequences of Helper/Name/Logf/Errorf/Fail/Failed/Context/Cleanup on the shared T (also overlapping the end of the invocation: failOnError, context cancellation, cleanup loop); every interleaving of synchronisation operations within the preemption bound is explored; on each, a happens-before monitor shows the absence of data races on T and the assertions show: a failure signalled from any goroutine falsifies the case, every registered cleanup runs exactly once, all goroutines see one live context.",
+        "note": _ENGINE_NOTE + " Concurrency: sequentially consistent interleavings, switches at synchronisation operations only, preemption bound 2-3, at most 3 goroutines x 2 calls; models of sync/atomic primitives with the Go memory model's happens-before edges.",
+        "technique": _CONC_TECH,
+    },
     "C18": {
         "text": "Reachability of every value is decided by witness synthesis plus a universal check on the real code: for each span bit length the solver finds a bias word that makes genUintNBiased draw at full width, and then shows for ALL ranges of that bit length and ALL values that the real Uint64Range/Int64Range returns the value on [witness, value] — a Skolem-function discharge of the forall-exists claim; a bit length without witness (exhaustive search) is an unreachable band, confirmed by a native 400000-draw sweep. Edge frequency is reduced to solver-proved forcing regions of measure >= 2^-8; seed freshness to satisfiability of 'two base seeds differ' and distinctness of the per-case seeds.",
         "note": _ENGINE_NOTE + " The harness-side Skolem function replicates the sign/offset split of genIntRange.",
